@@ -44,6 +44,14 @@ def source_for(c):
         if c["extra"] == "mixed_blocks":
             extra_out = (f"cardano::withdrawal {{ from: Other, amount: w1, redeemer: (), }}\n  "
                          "cardano::treasury_donation { coin: w1, }\n  cardano::plutus_witness { version: 3, script: 0x5101010023259800a518a4d136564004ae69, }")
+    elif c["extra"] == "long_script":
+        # an inline script of realistic size (longer than the 4 KiB scratch buffers of common CBOR readers)
+        extra_out = "cardano::plutus_witness { version: 3, script: 0x" + "5a" * 5003 + ", }"
+    elif c["extra"] == "long_policy_script":
+        pol = "policy P { hash: 0x" + "11" * 28 + ", script: 0x" + "c3" * 4097 + ", }\n"
+        extra_out = "mint { amount: AnyAsset(P, \"t\", 1), redeemer: (), }"
+    elif c["extra"] == "long_datum":
+        extra_out = f"output {{ to: {party}, amount: Ada(1), datum: 0x" + "07" * 70000 + ", }"
     src = f"env {{ {env}: Int, }}\n" + "".join(f"party {x};\n" for x in parties) + pol
     src += f"tx transfer({', '.join(params)}) {{\n  input source {{ from: {party}, min_amount: {amount}, }}\n"
     src += f"  output {{ to: {party}, amount: source - fees, }}\n  {extra_out}\n}}\n"
@@ -154,7 +162,7 @@ def check_c18(tier, seed):
     rep = core.Report("C18", tier, seed)
     rep.rule = ("a case is a source program: every example of the repository, the C17 spelling programs and generated core programs that "
                 "exercise containers whose order could leak (chain-specific directives with several fields, several parties / "
-                "transactions, maps, multi-asset literals), plus a revision of each source with other digits in every hex literal. Each is "
+                "transactions, maps, multi-asset literals), programs with one mistake in them (C13 mutants: refused or built, the same every time), plus a revision of each source with other digits in every hex literal. Each is "
                 "lowered and encoded 20 times in one driver process, again in another process, in a process that compiles the sources in "
                 "the opposite order, alone in a fresh process, and built 3 times by the real tx3c; all digests of one artifact must be equal. "
                 "non-trivial: the program has a directive with >= 2 fields or >= 2 transactions; distinct = distinct sources.")
@@ -194,9 +202,23 @@ tx second(quantity: Int) { input source { from: Sender, min_amount: fees, } outp
     # names that collide once the IR folds their case (every kind of named thing, from the C13 mutants), and a transaction
     # with three and four inputs two of which collide: whatever lowering does with a collision, it does it the same way each time
     from . import mutants
-    for meta_, src_ in mutants.whole_program_mutants():
+    wpm = mutants.whole_program_mutants()
+    for meta_, src_ in wpm:
         if meta_["name"].startswith("case_twin_"):
             sources.append((meta_["name"], src_))
+    # programs with a mistake in them (the C13 mutants): whether a source is refused or built, and what is built, must not
+    # vary from run to run either
+    rest = [(m["name"], s_) for m, s_ in wpm if not m["name"].startswith("case_twin_")]
+    keep = [x for x in rest if x[0].startswith("implicit_ctor")]
+    rest = [x for x in rest if not x[0].startswith("implicit_ctor")]
+    rng.shuffle(rest)
+    sources += [("mutant:" + n_, s_) for n_, s_ in keep + rest[:30 if quick else len(rest)]]
+    rm = core.tlc_mc("MC_Mutants", mutants.MCFG.format(double="FALSE"), "c18_mut", workers=6, timeout=900)
+    rep.add_tlc(rm)
+    mcases = list(rm.cases)
+    rng.shuffle(mcases)
+    for i, c in enumerate(mcases[:40 if quick else 400]):
+        sources.append((f"mutant:{c['name']}@{c['slot']}", pp.layout(pp.program_tokens(core.untlcify(c["prog"])), 0, seed + i)))
     sources.append(("case_twin_inputs3", "party Sender;\nparty Receiver;\ntx t(n: Int) {\n  input Vault { from: Sender, min_amount: Ada(n), }\n"
                     "  input vault { from: Receiver, min_amount: Ada(1), }\n  input gas { from: Sender, min_amount: fees, }\n"
                     "  output { to: Receiver, amount: Vault + vault + gas - fees, }\n}\n"))
